@@ -594,9 +594,15 @@ def machine_rule(P, r):
             continue
         a, b_ = pp
         res = {}
+        null_lists = []
         for dpv in (0, 1):
-            outs = oblig.simulate(dec, pc, v, stop_calls=INTERESTING, seed={dp: dpv})
+            evs = []
+            outs = oblig.simulate(dec, pc, v, stop_calls=INTERESTING, seed={dp: dpv}, event_env=evs)
             res[dpv] = {val.callee for kind, val, tr in outs if kind == 'event'}
+            # with parities among the erasures the data decoders must be told which ones: the list argument is never NULL
+            for ins_, vals_ in evs:
+                if ins_.callee in decoders.values() and b_ > 0 and len(ins_.ops) > 4 and vals_.get(ins_.ops[4]) == 0:
+                    null_lists.append((dpv, ins_))
         called = res[0] | res[1]
         want = decoders.get(a)
         have = {c for c in called if c in decoders.values()}
@@ -606,6 +612,11 @@ def machine_rule(P, r):
                    msg=f'pattern {name} must use {want or "no data decoder"}, the dispatch reaches {sorted(have) or "none"}')
         else:
             r.ok(inst + f': data decoder {want or "none"}', func=dec.name, loc=pc.loc)
+        if null_lists:
+            dpv_, ins_ = null_lists[0]
+            r.fail(inst + ' missing-parity list', func=dec.name, sig=f'{name}: {ins_.callee[1:]} gets a NULL missing-parity list', loc=ins_.loc,
+                   msg=f'pattern {name} has erased parities but {ins_.callee[1:]} is called with a NULL missing-parity list when decode_parity == {dpv_}: '
+                       'the decoder may then pick an erased (zero-filled) parity as its source equation and returns wrong data with rc 0')
         se1, se0 = '@selective_encode' in res[1], '@selective_encode' in res[0]
         if b_ > 0 and not se1:
             r.fail(inst + ' parity', func=dec.name, sig=f'{name}: no selective_encode', loc=pc.loc,
